@@ -341,7 +341,7 @@ class Episode(object):
         else:
             self.world.build()
 
-    INI_OPTS = ('numprocesses', 'graceful_timeout', 'warmup_delay',
+    INI_OPTS = ('copy_env', 'numprocesses', 'graceful_timeout', 'warmup_delay',
                 'singleton', 'stop_signal', 'stop_children', 'respawn',
                 'priority', 'autostart', 'max_age', 'max_age_variance',
                 'max_retry', 'send_hup')
@@ -362,12 +362,15 @@ class Episode(object):
                 # spec: 'fn' or 'fn, flag' (functions of circus_sim.hookmods)
                 ent['hooks.%s' % hname] = 'circus_sim.hookmods.' + spec
             ws.append(ent)
-        envs = [(self.cfg['watchers'][i]['name'], e)
-                for i, e in sorted(self.ini_env.items())]
+        envs = [(wc['name'], wc['ini_env_section'])
+                for wc in self.cfg['watchers'] if wc.get('ini_env_section')]
+        envs += [(self.cfg['watchers'][i]['name'], e)
+                 for i, e in sorted(self.ini_env.items())]
         txt = ini.render(
             circus={'check_delay': self.cfg.get('check_delay', 1.0),
                     'warmup_delay': self.cfg.get('warmup_delay', 0)},
-            watchers=ws, env_sections=envs)
+            watchers=ws, env=self.cfg.get('ini_global_env'),
+            env_sections=envs)
         with open(self.ini_path, 'w') as f:
             f.write(txt)
 
